@@ -64,6 +64,36 @@ def base_setup(eng, st):
 
 
 def build(reg, src):
+    # torch backend (torch is not installed here; its source is): the gradient helpers may not switch gradient tracking on, or
+    # write, on a tensor the caller still holds.  Ownership typing (pyvc/frames.py): a method whose name ends in '_' works in
+    # place; x.float()/x.to()/x.cpu() may return x itself; x.clone() and x.detach() are new tensor OBJECTS (detach shares the
+    # storage, but requires_grad_ is a flag of the object) - assumed torch contracts.
+    def torch_frames(ctx):
+        from pyvc.frames import FrameAnalysis
+        fa = FrameAnalysis(src, {})
+        fa.rows_are_views = True
+        fa.extra_fresh_methods = {'clone', 'detach'}
+        T = 'klongpy/backends/torch_backend.py::TorchBackendProvider.'
+        res = []
+        for n in ('create_grad_tensor', 'compute_autograd', 'compute_multi_autograd', 'compute_jacobian'):
+            k = T + n
+            sm = fa.summary(k)
+            if sm is None:
+                res.append(dict(name=f"{k}#frame.function-present", ok=False, undecided=True, backend='ownership-typing', detail='not found'))
+                continue
+            ctx['eng'].verified[k] = dict(sha=src.sha(src.find(k)), backend='ownership-typing', write_sites=len(sm.sites))
+            for site in sm.sites:
+                res.append(dict(name=f"{site.fn_key}#frame.{site.kind}[{site.ordinal}]", ok=site.ok, backend='ownership-typing',
+                                detail=f"line {site.node.lineno}: `{site.text}` " + ("acts on a tensor created in this call" if site.ok else
+                                       f"acts IN PLACE on a tensor that may be the caller's own ({sorted(site.labels)}): e.g. x.float() returns x itself when x is already float32"),
+                                confirmed=False))
+            if not sm.sites and n == 'create_grad_tensor':
+                res.append(dict(name=f"{k}#frame.reachability", ok=False, undecided=True, backend='ownership-typing', detail='no in-place site found (vacuity guard)'))
+        return res
+    torch_frames.__name__ = 'torch-frames'
+    reg.extra_checks.append(torch_frames)
+    reg.assumptions.append("torch: clone()/detach() return new tensor objects, float()/to()/cpu() may return the receiver, methods ending in '_' work in place "
+                           "(assumed contracts; torch itself is not installed, a failing obligation of the torch helpers cannot be replayed here)")
     reg.assumptions += [
         "NumPy: np.asarray(x, dtype) returns x itself when x already is an ndarray of that dtype (both outcomes explored); np.array / "
         "copy / flatten / zeros_like return fresh arrays; element assignment writes in place; element read-after-write axioms",
